@@ -2,7 +2,9 @@ package props
 
 import (
 	"bytes"
+	"reflect"
 	"time"
+	"unsafe"
 
 	"github.com/philpearl/avro"
 )
@@ -36,4 +38,61 @@ func scribbleSchema(s *avro.Schema, seen map[*avro.SchemaObject]bool) {
 			s.Object = &avro.SchemaObject{LogicalType: "scribbled-logical"}
 		}
 	}
+}
+
+// scribbleSpareCapacity writes into the spare capacity (between len and cap) of every numeric or byte slice
+// reachable from v, as a holder that appends in place would. The value belongs to its holder; what lies beyond
+// a slice's length but within its capacity is the slice's own memory and nobody else's.
+func scribbleSpareCapacity(v reflect.Value, depth int) (n int) {
+	if depth > 12 {
+		return 0
+	}
+	switch v.Kind() {
+	case reflect.Pointer:
+		if !v.IsNil() {
+			n += scribbleSpareCapacity(v.Elem(), depth+1)
+		}
+	case reflect.Struct:
+		if v.Type().PkgPath() != "" && v.Type().Name() != "" && v.NumField() > 0 && !v.Type().Field(0).IsExported() {
+			return 0 // time.Time and friends
+		}
+		for i := 0; i < v.NumField(); i++ {
+			if v.Type().Field(i).IsExported() {
+				n += scribbleSpareCapacity(v.Field(i), depth+1)
+			}
+		}
+	case reflect.Map:
+		it := v.MapRange()
+		for it.Next() {
+			n += scribbleSpareCapacity(it.Value(), depth+1)
+		}
+	case reflect.Array:
+		if v.Type().Elem().Kind() != reflect.Uint8 {
+			for i := 0; i < v.Len(); i++ {
+				n += scribbleSpareCapacity(v.Index(i), depth+1)
+			}
+		}
+	case reflect.Slice:
+		if v.IsNil() {
+			return 0
+		}
+		for i := 0; i < v.Len() && i < 200; i++ {
+			n += scribbleSpareCapacity(v.Index(i), depth+1)
+		}
+		if v.Cap() > v.Len() {
+			switch v.Type().Elem().Kind() {
+			case reflect.Uint8, reflect.Int8, reflect.Int16, reflect.Int32, reflect.Int64, reflect.Int, reflect.Float32, reflect.Float64, reflect.Bool:
+				esz := int(v.Type().Elem().Size())
+				spare := unsafe.Slice((*byte)(unsafe.Add(v.UnsafePointer(), v.Len()*esz)), (v.Cap()-v.Len())*esz)
+				for k := range spare {
+					spare[k] = 0xA5
+					if v.Type().Elem().Kind() == reflect.Bool {
+						spare[k] = 1
+					}
+				}
+				n += len(spare)
+			}
+		}
+	}
+	return n
 }
